@@ -307,6 +307,8 @@ func (r *yieldRewriter) rewriteStmt(
 		// ↓↓ trival branch ↓↓
 		// all other stmt are trival,
 		// no rewriting, no combine
+		// a yield inside would be kept as a call of the no-op stub and silently dropped
+		r.assert(r.mustNoYield(stmt), stmt, "yield not supported in %T", stmt)
 		children.push(stmt, kindTrival)
 		return children
 	}
@@ -387,6 +389,9 @@ func (r *yieldRewriter) rewriteIfStmt(
 		}
 		return block
 	}
+
+	// the init stmt stays in the if header, can't be suspended
+	r.assert(r.mustNoYield(stmt.Init), stmt, "yield not supported in if-init")
 
 	switch alt := stmt.Else.(type) {
 	case nil:
